@@ -267,6 +267,8 @@ def build(tier, repo):
     r1 = chk.rule("C01-R1", "'optimal' returns of conelp are dominated by the documented stop test on the reported quantities",
                   "residuals <= feastol and gap criterion hold for the returned fields")
     tm.check_optimal(r1, w, "coneprog", "conelp", conelp_shortcut)
+    tm.check_relgap(r1, w, "coneprog", "conelp")
+    tm.check_residual_normalisers(r1, w, "coneprog", "conelp")
     r1.require(6)
     r2 = chk.rule("C01-R2", "iterations <= maxiters: loop over range(MAXITERS+1), validated, limit test returns",
                   "iterations <= maxiters")
@@ -285,6 +287,43 @@ def build(tier, repo):
                   "blocks of s, z, G, h are addressed consistently (wrapper pieces, symmetrisation, start points)")
     rc.offsets_rule(r5, w, [("coneprog", "conelp"), ("coneprog", "lp"), ("coneprog", "socp"), ("coneprog", "sdp")])
     r5.require(45)
+    r8 = chk.rule("C01-R8", "external-solver branches of lp compute the reported quantities by the same formulas (glpk ~ mosek), and every relgap chain "
+                            "of lp/socp/sdp divides by the quantity its guard made positive",
+                  "with solver='glpk'/'mosek' the reported objectives, gap and residuals equal the recomputed values")
+    QUANT = ("pcost", "dcost", "gap", "relgap", "resx0", "resy0", "resz0", "resx", "resy", "resz", "pres", "dres", "pslack", "dslack")
+    lpf = w.func("coneprog", "lp")
+    mcp = w.mods["coneprog"]
+    brs = {}
+    for st in lpf.body:
+        if isinstance(st, ast.If):
+            t = pf.norm_expr(st.test)
+            for nm in ("glpk", "mosek"):
+                if "solver" in t and "'%s'" % nm in t:
+                    brs[nm] = st
+    if set(brs) != {"glpk", "mosek"}:
+        raise AnalysisError("lp: glpk/mosek branches not found")
+
+    def _coll(br):
+        out = {}
+        for a in ast.walk(br):
+            if isinstance(a, ast.Assign) and len(a.targets) == 1 and isinstance(a.targets[0], ast.Name) and a.targets[0].id in QUANT:
+                out.setdefault(a.targets[0].id, {})[pf.norm_expr(a.value)] = a
+        return out
+    A_, B_ = _coll(brs["glpk"]), _coll(brs["mosek"])
+    for k in sorted(set(A_) & set(B_)):
+        key = "lp:glpk~mosek:%s" % k
+        sa_, sb_ = set(A_[k]), set(B_[k])
+        if sa_ <= sb_ or sb_ <= sa_:
+            r8.ok(key, mcp.where(list(A_[k].values())[0], lpf), sorted(sa_ & sb_)[:2])
+        else:
+            odd = sorted(sa_ - sb_)[0]
+            r8.violation(key, mcp.where(A_[k][odd], lpf),
+                         "the glpk branch computes `%s = %s` but the mosek branch `%s`: the two back-ends report the same documented quantity"
+                         % (k, odd, sorted(sb_ - sa_)[0]), sorted(sb_)[:2], sorted(sa_)[:2])
+    for q in ("lp", "socp", "sdp"):
+        tm.check_relgap(r8, w, "coneprog", q)
+    r8.require(8)
+
     r6 = chk.rule("C01-R6", "lp/socp/sdp incl. external-solver branches: names/attributes resolve, reported fields definitely assigned",
                   "external solver option returns well-formed results")
     for q in ("lp", "socp", "sdp"):
